@@ -147,21 +147,21 @@ pub fn h_capacity_t(n: usize, cap: usize, tab: [u8; 8], which: u8, nd: bool, tfi
 /// hashbrown only produces them in tables of >= 16 buckets, so the native
 /// replay additionally searches for such a state at that scale (same
 /// operation, same assertion) when the small scenario does not show it.
-pub fn h_shrink_tomb(n: usize, cap: usize, tab: [u8; 8], fit: bool) {
+pub fn h_shrink_tomb(n: usize, cap: usize, tab: [u8; 8], fit: bool, r: usize) {
     tm::nondet(false, true);
-    let (mut c, st, _exp) = build_shaped(n, cap, tab, 0, false);
-    let r: usize = sym::any();
-    sym::assume(r >= 1 && r <= 2 && r <= n);
+    let (mut c, st, _exp) = build_shaped_t(n, cap, tab, 0, false, 0);
+    // r removals (concrete count), each of which may leave a tombstone (solver's choice)
     let mut i = 0;
-    while i < 2 {
-        if i < r {
-            drop(c.remove_lru());
-        }
+    while i < r {
+        drop(c.remove_lru());
         i += 1;
     }
     let cap0 = c.capacity();
     let len = c.len();
     let arg: usize = if fit { 0 } else { sym::any() };
+    if !fit {
+        sym::assume(arg <= 7);
+    }
     vcover!(cap0 < cap && cap0 > len, "shrink with tombstones: capacity() below the table's full capacity");
     if fit {
         c.shrink_to_fit();
@@ -498,8 +498,8 @@ harnesses! {
     shrink_to_fit_n2_c7 [5] => h_capacity(2, 7, tab_of(6), 3, false); //@ q=C13,C07,C20 t=C04,C05,C06 to=1200
     shrink_to_n1_c3_t0 [4] => h_capacity_t(1, 3, tab_of(6), 2, false, 0); //@ q=C13 t=C07 to=900
     shrink_to_fit_n0_c3 [4] => h_capacity(0, 3, tab_of(6), 3, false); //@ q=C13 t=C07 to=600
-    shrink_to_fit_tomb_n2_c3 [5] => h_shrink_tomb(2, 3, tab_of(6), true); //@ q=C13 to=900
-    shrink_to_tomb_n3_c7 [6] => h_shrink_tomb(3, 7, tab_of(6), false); //@ t=C13 to=1800
+    shrink_to_fit_tomb_n2_c3 [5] => h_shrink_tomb(2, 3, tab_of(6), true, 1); //@ q=C13 to=900
+    shrink_to_tomb_n3_c7 [6] => h_shrink_tomb(3, 7, tab_of(6), false, 2); //@ t=C13 to=1800
     shrink_to_fit_n2_c7_nd [5] => h_capacity(2, 7, tab_of(6), 3, true); //@ t=C13,C07 to=2400
     grow_insert_n3_c3_t0 [6] => h_grow_insert_t(3, 3, tab_of(6), false, 0); //@ q=C13,C07,C04,C05,C06,C20,C01,C02 to=1200
     grow_insert_n3_c3_t1 [6] => h_grow_insert_t(3, 3, tab_of(6), false, 1); //@ q=C13,C07,C05,C06 t=C04,C20,C01,C02 to=1200
